@@ -258,7 +258,7 @@ def gen_test(s, indent="", in_class=False, plain_strings=True):
     s.emit("")
 
 
-def gen_source(rng, unicode_noise=0.0, crlf=None, tabs=None, plain_strings=True):
+def gen_source(rng, unicode_noise=0.0, crlf=None, tabs=None, plain_strings=True, redefine=0.0):
     s = Src(rng, unicode_noise=unicode_noise, crlf=(rng.random() < 0.15 if crlf is None else crlf),
             tabs=(rng.random() < 0.1 if tabs is None else tabs))
     if s.crlf:
@@ -290,7 +290,8 @@ def gen_source(rng, unicode_noise=0.0, crlf=None, tabs=None, plain_strings=True)
     for _ in range(n_items):
         r = rng.random()
         if r < 0.4:
-            gen_fixture(s)
+            olds = [n for n in s.fixture_names if n.startswith("fx")]
+            gen_fixture(s, name=(rng.choice(olds) if olds and rng.random() < redefine else None))
         elif r < 0.7:
             gen_test(s, plain_strings=plain_strings)
         elif r < 0.8:
@@ -310,7 +311,8 @@ def gen_source(rng, unicode_noise=0.0, crlf=None, tabs=None, plain_strings=True)
                 s.features.add("pytestmark:class")
             for _ in range(rng.randint(1, 3)):
                 if rng.random() < 0.4:
-                    gen_fixture(s, indent="    ", in_class=True)
+                    olds = [n for n in s.fixture_names if n.startswith("fx")]
+                    gen_fixture(s, indent="    ", in_class=True, name=(rng.choice(olds) if olds and rng.random() < redefine else None))
                 else:
                     gen_test(s, indent="    ", in_class=True, plain_strings=plain_strings)
             s.features.add("class")
